@@ -164,7 +164,7 @@ PROPS["C14"] = {
 }
 
 PROPS["C01"] = {
-    "compose": ["C02", "C03", "C10", "C11", "C12", "C14"],
+    "compose": ["C02", "C03", "C10", "C11", "C12", "C14", "C17"],
     "technique": "Composition: the sender-side contracts (C14 Kani byte images, C11 encode, C12 iteration) and the receiver-side contracts (C02 frame layer, C03 request stream, C11 decode, C12 parse) are both stated against the same spec functions; Verus lemmas (unit e2e) show the two frame-level halves are inverse on the wire format",
     "text": "No separate code contracts. Mechanised: (1) every unit of C02/C03/C10-C12 that carries C01 in its props (buf, frames, request_stream, qpack_stateless, headers) — chunk independence comes from verifying the frame layer against the Buf contract only, partial-write independence from the adapter's write loop (C17) and WriteBuf as a Buf (C14); (2) unit e2e: varint round trip (venc/vdec, tied to the Kani oracle by c16_spec_renderings_agree), and for the sender's bytes varint(type) ++ varint(|p|) ++ p followed by anything, the receiver's predicates (skip_unknown / decoded_as / frame_len) single out exactly HEADERS with the same section, DATA with exactly the payload length followed by the payload, and skip interleaved reserved-type frames in full; (3) QPACK: [C11.enc] and [C11.dec] are both relative to spec_field_section, so decode(encode(fields)) == fields in order; headers: [C12.order.exact] with [C12.parse.exact]/[C12.fields.assembled]. ARGUED, not mechanised: the message-level induction over DATA frames and the final 'exactly one clean end' (read off [C02.eos.clean], [C03.eob.cause], [C03.trailers.end]); independence from task interleaving rests on ownership (C07).",
     "note": "Relative to the http contracts of C12 (per-name order through HeaderMap), the Huffman string codec contract (C15) and the callee contracts each unit assumes; body length bound none (< 2^62).",
